@@ -286,6 +286,9 @@ def main(argv):
             keep.append(i)
     dropped = len(viols) - len(keep)
     viols = [viols[i] for i in keep]
+    for _, v in viols:      # the replay may depend on which obligation the counterexample is for
+        if isinstance(v.get("case"), dict) and not v.get("cross"):
+            v["case"]["_obligation"] = v["name"]
     cases = [(i, v["case"]) for i, (_, v) in enumerate(viols) if v.get("case") and "realize_error" not in v["case"]]
     if cases:
         rr = _collect_real(_spawn_real(dict(pid=pid, cases=[c for _, c in cases], alarm_s=meta.get("replay_alarm_s", 60), timeout_is_violation=meta.get("timeout_is_violation", False))),
